@@ -122,9 +122,6 @@ Definition saturated (c : delay_case) : bool :=
 Definition delay_mismatch (c : delay_case) : bool :=
   negb (delay_eqb (if dk_until c then mk_until (dk_now c) (dk_arg c) else mk_for (dk_now c) (dk_arg c)) (dk_got c)
         && (saturated c || (Z.leb (dk_t0 c) (dk_now c) && Z.leb (dk_now c) (dk_t1 c)))).
-(** delayed-until = clock + delayed-for, for a clock reading between the two brackets *)
-Definition agree_within (t0 t1 : Z) (d : delay) : bool :=
-  Z.leb ((t0 + d_dur d) / ns_per_s) (d_sec d) && Z.leb (d_sec d) ((t1 + d_dur d) / ns_per_s).
 Definition delay_violates (c : delay_case) : bool :=
   negb (saturated c || agree_within (dk_t0 c) (dk_t1 c) (dk_got c)).
 
